@@ -5,6 +5,7 @@ package argmapper
 import (
 	"errors"
 	"fmt"
+	"reflect"
 )
 
 // Statically declared parameter / result structs of unusual but legal shapes
@@ -122,4 +123,96 @@ func HarnessShapes(kind int) {
 		vnCover("C13.shapes-checked")
 	}
 	_ = fmt.Sprint
+}
+
+// HarnessC05Gen — chaining is complete when the converters come from a generator
+// (ConverterGen): the generator is name-sensitive — for a named P0 value n it returns a
+// converter n:P0 -> n:P1, for anything else nothing. Two (or three) P0 values with
+// different names are supplied; the target needs, symbolically, some of the n:P1. Every
+// needed parameter is derivable through the generated converter of its own name, so the
+// call must succeed, whatever the iteration orders, and deliver f_n(x_n).
+//
+//	nVals 2 or 3 named P0 values; sv: order policy (see hOrderSites)
+func HarnessC05Gen(nVals, sv int) {
+	hOrderSites(sv)
+	names := []string{"a", "b", "c"}[:nVals]
+	xs := make([]int, nVals)
+	var args []Arg
+	for i, n := range names {
+		xs[i] = vnPayload("x", i)
+		args = append(args, Named(n, hP0{xs[i]}))
+	}
+	// a distractor of another type, and a type-only P0 value the generator ignores
+	args = append(args, Typed(hP2{vnPayload("d")}))
+	genCalls := 0
+	gen := func(v Value) (*Func, error) {
+		genCalls++
+		if v.Name == "" || v.Type != hType(hTP0) {
+			return nil, nil
+		}
+		name := v.Name
+		in := hStructType([]hLabel{{Name: name, T: hTP0}})
+		out := hStructType([]hLabel{{Name: name, T: hTP1}})
+		ft := reflect.FuncOf([]reflect.Type{in}, []reflect.Type{out}, false)
+		fn := reflect.MakeFunc(ft, func(a []reflect.Value) []reflect.Value {
+			_, id := hUnpack(a[0].Field(1).Interface())
+			o := reflect.New(out).Elem()
+			o.Field(1).Set(reflect.ValueOf(hP1{vnUF("gen_"+name, id)}))
+			return []reflect.Value{o}
+		})
+		return NewFunc(fn.Interface())
+	}
+	args = append(args, ConverterGen(gen))
+	// which parameters the target has
+	var need []int
+	for i := range names {
+		if vnBool("need", i) {
+			need = append(need, i)
+		}
+	}
+	if len(need) == 0 {
+		vnAssume(false)
+	}
+	var ls []hLabel
+	desc := ""
+	for _, i := range need {
+		ls = append(ls, hLabel{Name: names[i], T: hTP1})
+		desc += names[i] + ":P1 "
+	}
+	tin := hStructType(ls)
+	got := make([]int, len(need))
+	ran := 0
+	tfn := reflect.MakeFunc(reflect.FuncOf([]reflect.Type{tin}, nil, false), func(a []reflect.Value) []reflect.Value {
+		ran++
+		for j := range need {
+			_, got[j] = hUnpack(a[0].Field(j + 1).Interface())
+		}
+		return nil
+	})
+	target, err := NewFunc(tfn.Interface())
+	vnNote(fmt.Sprintf("%d named P0 values, name-sensitive generator n:P0 -> n:P1, target needs %s; order policy %d", nVals, desc, sv))
+	if err != nil {
+		vnAssume(false)
+	}
+	vnOnDivergence("C05.call-terminates", "")
+	for rep := 0; rep < 2; rep++ {
+		if rep == 1 {
+			vnScheduleEpoch()
+		}
+		ran = 0
+		var r Result
+		if hGuardPlain(func() { r = target.Call(args...) }) {
+			vnAssert(false, "C05.gen.call-does-not-panic")
+			return
+		}
+		vnAssert(r.Err() == nil, "C05.gen.derivable-through-generated-converters-succeeds")
+		if r.Err() != nil {
+			return
+		}
+		vnAssert(ran == 1, "C05.gen.target-executed")
+		for j, i := range need {
+			vnAssert(got[j] == vnUF("gen_"+names[i], xs[i]), "C05.gen.parameter-receives-its-own-name's-conversion")
+		}
+	}
+	vnCover("C05.gen-checked")
 }
